@@ -559,30 +559,16 @@ func isCapOrLenOfBuf(v ssa.Value, recv ssa.Value) bool {
 
 // guardedBufNonEmpty: in runs only where len(recv.buf) != 0.
 func guardedBufNonEmpty(in ssa.Instruction, recv ssa.Value) bool {
-	for _, g := range core.GuardsOf(in) {
-		cond, truth := core.StripNot(g.Cond, g.Truth)
-		b, ok := cond.(*ssa.BinOp)
-		if !ok {
+	f := in.Parent()
+	for _, g := range core.Facts(f).At(in.Block()) {
+		v, isZero, ok := core.ZeroTest(g.Cond, g.Truth)
+		if !ok || isZero {
 			continue
 		}
-		var lenSide, kSide ssa.Value
-		if isCapOrLenOfBuf(b.X, recv) {
-			lenSide, kSide = b.X, b.Y
-		} else if isCapOrLenOfBuf(b.Y, recv) {
-			lenSide, kSide = b.Y, b.X
+		if cv, isCv := v.(*ssa.Convert); isCv {
+			v = cv.X
 		}
-		if lenSide == nil {
-			continue
-		}
-		k, isK := core.ConstInt(kSide)
-		if !isK {
-			continue
-		}
-		switch {
-		case b.Op == token.EQL && k == 0 && !truth,
-			b.Op == token.NEQ && k == 0 && truth,
-			b.Op == token.GTR && k == 0 && truth && lenSide == b.X,
-			b.Op == token.LSS && k == 0 && truth && lenSide == b.Y:
+		if isCapOrLenOfBuf(v, recv) {
 			return true
 		}
 	}
@@ -645,8 +631,11 @@ func sortedUpdate(f *ssa.Function, st *ssa.Store, recv ssa.Value) (string, bool)
 				return "delete position is not the BinarySearch index", false
 			}
 			plus1 := false
-			if b, ok := args[2].(*ssa.BinOp); ok && b.Op == token.ADD && b.X == args[1] {
-				if k, isK := core.ConstInt(b.Y); isK && k == 1 {
+			if b, ok := args[2].(*ssa.BinOp); ok && b.Op == token.ADD {
+				if k, isK := core.ConstInt(b.Y); isK && k == 1 && b.X == args[1] {
+					plus1 = true
+				}
+				if k, isK := core.ConstInt(b.X); isK && k == 1 && b.Y == args[1] {
 					plus1 = true
 				}
 			}
@@ -872,34 +861,122 @@ func stepOf(phi *ssa.Phi) (int64, bool) {
 }
 
 func ascendingOver(f *ssa.Function, s ssa.Value) bool {
-	phi, ok := indexPhi(f, s)
-	if !ok {
-		return false
-	}
-	k, ok := stepOf(phi)
-	return ok && k == 1
+	return indexSequenceIs(f, s, func(n, k int64) int64 { return k })
 }
 
 func descendingOver(f *ssa.Function, s ssa.Value) bool {
-	phi, ok := indexPhi(f, s)
-	if !ok {
+	return indexSequenceIs(f, s, func(n, k int64) int64 { return n - 1 - k })
+}
+
+// indexSequenceIs evaluates the loop that indexes slice s for slices of 0..5
+// elements: the k-th iteration must read s[want(n, k)], and there must be
+// exactly n iterations unless the body leaves early.  The counter, its bound
+// and the index are affine in the counter and len(s), so six lengths decide
+// all; a `continue` around the increment makes the back-edge value depend on
+// a branch and is rejected.
+func indexSequenceIs(f *ssa.Function, s ssa.Value, want func(n, k int64) int64) bool {
+	var ia *ssa.IndexAddr
+	core.EachInstr(f, func(in ssa.Instruction) {
+		if x, ok := in.(*ssa.IndexAddr); ok && x.X == s && core.InLoop(x) {
+			ia = x
+		}
+	})
+	if ia == nil {
 		return false
 	}
-	k, ok := stepOf(phi)
-	if !ok || k != -1 {
-		return false
-	}
-	// initial value len(s)-1
-	for _, e := range phi.Edges {
-		if b, isB := e.(*ssa.BinOp); isB && b.Op == token.SUB && b.X != ssa.Value(phi) {
-			if call, isC := b.X.(*ssa.Call); isC {
-				if bi, isBi := call.Call.Value.(*ssa.Builtin); isBi && bi.Name() == "len" && call.Call.Args[0] == s {
-					if k, isK := core.ConstInt(b.Y); isK && k == 1 {
-						return true
-					}
-				}
+	var head *ssa.BasicBlock
+	for h := range core.LoopHeads(f) {
+		if core.LoopBody(h)[ia.Block()] {
+			if head == nil || core.LoopBody(head)[h] {
+				head = h // innermost
 			}
 		}
 	}
-	return false
+	if head == nil {
+		return false
+	}
+	body := core.LoopBody(head)
+	hif, _ := head.Instrs[len(head.Instrs)-1].(*ssa.If)
+	if hif == nil {
+		return false
+	}
+	var phis []*ssa.Phi
+	for _, in := range head.Instrs {
+		if p, ok := in.(*ssa.Phi); ok && isIntegerType(p.Type()) {
+			phis = append(phis, p)
+		}
+	}
+	if len(phis) == 0 {
+		return false
+	}
+	var lens []ssa.Value
+	core.EachInstr(f, func(in ssa.Instruction) {
+		if call, ok := in.(*ssa.Call); ok {
+			if b, isB := call.Call.Value.(*ssa.Builtin); isB && (b.Name() == "len" || b.Name() == "cap") && len(call.Call.Args) == 1 && call.Call.Args[0] == s {
+				lens = append(lens, call)
+			}
+		}
+	})
+	for n := int64(0); n <= 5; n++ {
+		env := map[ssa.Value]int64{}
+		for _, l := range lens {
+			env[l] = n
+		}
+		cur := map[*ssa.Phi]int64{}
+		for _, p := range phis {
+			ok := false
+			for i, e := range p.Edges {
+				if !body[head.Preds[i]] {
+					cur[p], ok = evalSmall(e, env, 0)
+				}
+			}
+			if !ok {
+				return false
+			}
+		}
+		var k int64
+		for ; k <= n+1; k++ {
+			for p, v := range cur {
+				env[p] = v
+			}
+			cv, ok := evalSmall(hif.Cond, env, 0)
+			if !ok {
+				return false
+			}
+			cont := cv != 0
+			if !body[hif.Block().Succs[0]] {
+				cont = !cont
+			}
+			if !cont {
+				break
+			}
+			iv, ok := evalSmall(ia.Index, env, 0)
+			if !ok || k >= n || iv != want(n, k) {
+				return false
+			}
+			next := map[*ssa.Phi]int64{}
+			for _, p := range phis {
+				var nv int64
+				have := false
+				for i, e := range p.Edges {
+					if body[head.Preds[i]] {
+						v, ok := evalSmall(e, env, 0)
+						if !ok || (have && v != nv) {
+							return false
+						}
+						nv, have = v, true
+					}
+				}
+				if !have {
+					return false
+				}
+				next[p] = nv
+			}
+			cur = next
+		}
+		if k != n {
+			return false
+		}
+	}
+	return true
 }
